@@ -64,8 +64,16 @@ func (t *int64Scalar) CoerceOut(v interface{}) (interface{}, error) {
 	// remains nil
 	case float32:
 		v = int64(tv)
+		if f := float64(tv); f != f || f < -9223372036854775808 || 9223372036854775808 <= f {
+			v = nil
+			err = newCoerceErr(tv, "Int64")
+		}
 	case float64:
 		v = int64(tv)
+		if f := tv; f != f || f < -9223372036854775808 || 9223372036854775808 <= f {
+			v = nil
+			err = newCoerceErr(tv, "Int64")
+		}
 	case int:
 		v = int64(tv)
 	case int8:
